@@ -151,7 +151,11 @@ func HaproxyEndpointFormat(
 	segments := strings.Split(url, "/")
 	hostLabels := strings.Split(segments[0], ".")
 	for i, label := range hostLabels {
-		if isPathParameter(label) {
+		if label == "*" && i == len(hostLabels)-1 && len(segments) == 1 {
+			// wildcard in host position ("api.example.*"): anything may follow
+			hostLabels[i] = ".*"
+			hasWildcard = true
+		} else if isPathParameter(label) {
 			hostLabels[i] = regexToReplaceHostParameters
 		} else {
 			hostLabels[i] = regexp.QuoteMeta(label)
